@@ -26,3 +26,27 @@ _new = "<!-- SEEDED-TABLE-BEGIN -->\n" + "\n".join(tab) + "\n<!-- SEEDED-TABLE-E
 s = re.sub(r"<!-- SEEDED-TABLE-BEGIN -->.*<!-- SEEDED-TABLE-END -->", lambda m: _new, s, flags=re.S)
 open(p, "w").write(s)
 print(len(rows), "seeded changes")
+
+# ---- harmless rewrites
+hrows = []
+for d in sorted(glob.glob(os.path.join(V, "harmless", "*"))):
+    mp = os.path.join(d, "meta.json")
+    if not os.path.exists(mp):
+        continue
+    m = json.load(open(mp))
+    ch = m.get("checks", {})
+    bad = ["%s (%s)" % (c, "no failing input" if any("no-failing-input-found" in l for l in r.get("violation_lines", [])) else "failing input reported")
+           for c, r in sorted(ch.items()) if r.get("exit") != 0]
+    fell = sorted(set(f for r in ch.values() for nline in r.get("notes", []) for f in re.findall(r"coq/Gen/(\w+\.v)", nline)))
+    hrows.append("| %s | %s | %s | %s | %s |" % (os.path.basename(d), m.get("summary", "").replace("|", "\\|")[:170], m.get("suite", "?"),
+                 ", ".join(fell) if fell else "-", "all %d checks exit 0" % len(ch) if not bad else "ALARM: " + "; ".join(bad)))
+htab = ["**Harmless rewrites** (behaviour-preserving changes written by fresh sub-agents and differential-tested by them against the original; kept under `harmless/<name>/`; every check must exit 0 on them).",
+        "", "| Rewrite | What was rewritten | 295 tests | Tables the translator refused (fallback to the committed table) | Outcome of the 16 checks |", "|---|---|---|---|---|"] + hrows
+s2 = open(p).read()
+_newh = "<!-- HARMLESS-TABLE-BEGIN -->\n" + "\n".join(htab) + "\n<!-- HARMLESS-TABLE-END -->"
+if "<!-- HARMLESS-TABLE-BEGIN -->" in s2:
+    s2 = re.sub(r"<!-- HARMLESS-TABLE-BEGIN -->.*<!-- HARMLESS-TABLE-END -->", lambda m: _newh, s2, flags=re.S)
+else:
+    s2 = s2.replace("<!-- SEEDED-TABLE-END -->", "<!-- SEEDED-TABLE-END -->\n\n" + _newh)
+open(p, "w").write(s2)
+print(len(hrows), "harmless rewrites")
